@@ -104,7 +104,7 @@ e2check.run(dict(
     rule='self-addressed MPI_Isend/MPI_Irecv pairs (1 B .. 4 MB, up to 512 pairs outstanding, 2-4 submitter tasks, 1-2 '
          'start_polling/stop_polling rounds) through transform_mpi on the live runtime for every handler method '
          '(yield_while, suspend_resume, new_task, continuation) x request_inline x completion_inline x high_priority, with '
-         'and without a dedicated polling pool (single-threaded poller when the pool is on and requests are transferred), '
+         'and without a dedicated polling pool (single-threaded poller when the pool is on and requests are transferred; six crowd runs: 8 workers polling at once, 128-512 requests outstanding, strong perturbation), '
          'MPI_Testsome and MPI_Testany pollers; variants with failing operations (invalid rank: error at the call; truncated '
          'receive: error at completion), throwing callables, and pika::wait() called while submitters still run; a third of the plain '
          'sends / receives pass their buffer BY VALUE (a move-only handle the adaptor owns; its destructor logs the release, '
